@@ -228,6 +228,25 @@ def rangeJobs (r1min r1max r2min r2max : Nat) : List (Nat × Nat) :=
   (List.range' r1min (r1max + 1 - r1min)).flatMap fun i =>
     ((List.range' r2min (r2max + 1 - r2min)).filter (· != i)).map fun j => (i, j)
 
+/-- range mode where a pair whose mirror image is also in the ranges is sent only once (`i < j`): the guard
+`!(j == i || (j < i && j >= r1min && j <= r1max && i >= r2min && i <= r2max))` of the proposed repair -/
+def rangeJobsDedup (r1min r1max r2min r2max : Nat) : List (Nat × Nat) :=
+  (List.range' r1min (r1max + 1 - r1min)).flatMap fun i =>
+    ((List.range' r2min (r2max + 1 - r2min)).filter fun j =>
+      !(j == i || (decide (j < i) && decide (r1min ≤ j) && decide (j ≤ r1max) && decide (r2min ≤ i) && decide (i ≤ r2max)))).map
+      fun j => (i, j)
+
+def guardPlain : String := "j != i"
+def guardDedup : String :=
+  "!(j == i || (j < i && j >= range1Min && j <= range1Max && i >= range2Min && i <= range2Max))"
+
+/-- the range-mode job list for the send guard found in the source (`Gen.Facts.rangeSendGuard`); `none` = a guard
+this model does not know -/
+def rangeJobsFor (guard : String) (a b c d : Nat) : Option (List (Nat × Nat)) :=
+  if guard == guardPlain then some (rangeJobs a b c d)
+  else if guard == guardDedup then some (rangeJobsDedup a b c d)
+  else none
+
 /-- the worker for pair `(i, j)` writes `outmatrix[i][j]` and `outmatrix[j][i]` -/
 def cellsOf (p : Nat × Nat) : List (Nat × Nat) := [(p.1, p.2), (p.2, p.1)]
 
